@@ -26,7 +26,7 @@ func init() {
 	})
 }
 
-var c12Forms = append(append([]string{}, allCmds...), "variants-gff-samestart", "topranking-csv", "cli-o-rerun", "topa-dir-rerun")
+var c12Forms = append(append([]string{}, allCmds...), "variants-gff-samestart", "variants-dupfeat", "topranking-csv", "cli-o-rerun", "topa-dir-rerun")
 
 var rerunForms = []string{"toma", "variants", "samvariants", "snps", "snps-agg", "closest", "closestn", "updownlist", "topranking"}
 
@@ -40,6 +40,17 @@ func genC12Case(r *Rand, form string, many bool) *Case {
 		all := Aln{Names: append([]string{"ref"}, q.Names...), Seqs: append([]string{ref}, q.Seqs...)}
 		c := &Case{Cmd: "variants", Files: map[string]string{"msa": all.FASTA(genLayout(r)), "anno": an.GFF(ref, true)}}
 		c.Opts = Opts{RefID: "ref", AnnoSuffix: "gff", Start: -1, End: -1, AppendSNP: r.P(0.3), Aggregate: r.P(0.4), Threads: 1}
+		return c
+	case "variants-dupfeat":
+		ref, an, all := genDupFeature(r, r.Range(3, 9))
+		c := &Case{Cmd: "variants", Files: map[string]string{"msa": all.FASTA(genLayout(r))}}
+		if r.Bool() {
+			c.Files["anno"], c.Opts.AnnoSuffix = an.GenBank(ref), "gb"
+		} else {
+			c.Files["anno"], c.Opts.AnnoSuffix = an.GFF(ref, true), "gff"
+		}
+		c.Opts.RefID, c.Opts.Start, c.Opts.End, c.Opts.Threads = "ref", -1, -1, 1
+		c.Opts.AppendSNP, c.Opts.Aggregate = r.P(0.3), r.P(0.7)
 		return c
 	case "topranking-csv":
 		// csv query and target (the streaming csv reader and the csv query list), derived with simulated `updown list` runs
